@@ -491,15 +491,17 @@ func evalVarsAll(d varsCase) (lines []varsLine) {
 		os.MkdirAll(filepath.Join(dir, "sub", "deep"), 0o755)
 		os.WriteFile(filepath.Join(dir, "sub", "deep", "Taskfile.yml"), []byte(leafOut), 0o644)
 	}
+	// the same dotenv file NAMES exist in every directory with different VALUES (suffix per directory):
+	// a task must get the file of its own directory, whatever another task read before
+	os.MkdirAll(filepath.Join(dir, "sub", "deep"), 0o755)
 	for name, kvs := range d.Dotenvs {
-		var b strings.Builder
-		for _, kv := range kvs {
-			fmt.Fprintf(&b, "%s=%s\n", kv[0], kv[1])
+		for _, where := range [][2]string{{".", ""}, {"sub", "@s"}, {filepath.Join("sub", "deep"), "@d"}} {
+			var b strings.Builder
+			for _, kv := range kvs {
+				fmt.Fprintf(&b, "%s=%s%s\n", kv[0], kv[1], where[1])
+			}
+			os.WriteFile(filepath.Join(dir, where[0], name), []byte(b.String()), 0o644)
 		}
-		os.WriteFile(filepath.Join(dir, name), []byte(b.String()), 0o644)
-		os.WriteFile(filepath.Join(dir, "sub", name), []byte(b.String()), 0o644)
-		os.MkdirAll(filepath.Join(dir, "sub", "deep"), 0o755)
-		os.WriteFile(filepath.Join(dir, "sub", "deep", name), []byte(b.String()), 0o644)
 	}
 	for _, n := range vPool {
 		os.Unsetenv(n)
@@ -666,11 +668,20 @@ func evalVarsAll(d varsCase) (lines []varsLine) {
 				// dotenv: first file wins, so later files only add missing keys
 				var dot []vDef
 				seen := map[string]bool{}
+				dotSuffix := ""
+				if rel, err := filepath.Rel(dir, t.Dir); err == nil {
+					switch filepath.ToSlash(rel) {
+					case "sub":
+						dotSuffix = "@s"
+					case "sub/deep":
+						dotSuffix = "@d"
+					}
+				}
 				for _, f := range vt.Dotenv {
 					for _, kv := range d.Dotenvs[f] {
 						if !seen[kv[0]] {
 							seen[kv[0]] = true
-							dot = append(dot, vDef{Name: kv[0], Kind: "lit", Text: kv[1]})
+							dot = append(dot, vDef{Name: kv[0], Kind: "lit", Text: kv[1] + dotSuffix})
 						}
 					}
 				}
